@@ -24,8 +24,29 @@ def helper_axpy(x, y):
 @script(default_opset=op)
 def helper_neg(x):
     return op.Neg(x)
+
+@script(default_opset=op)
+def helper_inner(x):
+    return op.Abs(x)
+
+@script(default_opset=op)
+def helper_inner2(x):
+    return op.Mul(x, 0.5)
+
+@script(default_opset=op)
+def helper_nested(x):
+    # other script functions called ONLY inside a branch / a loop body of a callee (never at top level, never by
+    # the caller itself): a model built from a caller of this one must still carry both of them
+    if (op.ReduceSum(x, keepdims=0) > 0.0):
+        y = helper_inner(x)
+    else:
+        y = op.Neg(x)
+    for i in range(2):
+        y = op.Add(y, helper_inner2(y))
+    return y
 '''
-HELPER_PARAMS = {"helper_axpy": ["x", "y"], "helper_neg": ["x"]}
+HELPER_PARAMS = {"helper_axpy": ["x", "y"], "helper_neg": ["x"], "helper_inner": ["x"], "helper_inner2": ["x"],
+                 "helper_nested": ["x"]}
 
 
 # =========================================================================== generator
@@ -183,9 +204,13 @@ class Gen:
                 return f"op.Where({c1} {cmpo} {self.operand(env, 'T', 2)}, {a}, {b})"
             if k < 0.80:
                 self.p.features.add("subfunction-call")
-                if rng.random() < 0.5:
+                r2 = rng.random()
+                if r2 < 0.4:
                     return f"helper_axpy({a}, {self.expr(env, 'T', depth + 1)})"
-                return f"helper_neg({a})"
+                if r2 < 0.7:
+                    return f"helper_neg({a})"
+                self.p.features.add("callee-calls-inside-control-flow")
+                return f"helper_nested({a})"
             if k < 0.86:
                 fl = [n for n, kk, _ in self.p.attrs if kk == "float"]
                 if fl:
@@ -420,8 +445,10 @@ class Gen:
             if bound in [a for a, _, _ in self.p.attrs]:
                 self.p.features.add("int-attr-loop-bound")
         elif r < 0.9:
-            bound = self.rng.choice(["0", "1", "2", "3"])
+            bound = self.rng.choice(["0", "1", "2", "3", "-1"])   # range(-1): zero trips (hypothesis hNat of the theorems)
             self.p.features.add("literal-loop-bound")
+            if bound == "-1":
+                self.p.features.add("negative-literal-loop-bound")
         else:
             bound = f"({self.rng.choice(bound_c)} + 1)" if bound_c else "2"
         carried_c = [v for v in self.vars_of(env, "T") + self.vars_of(env, "S")
@@ -1087,16 +1114,66 @@ def pred_d41(fn: ast.FunctionDef) -> bool:
     return bool(attrs) and all(d is not None for _, d in attrs)
 
 
-PREDICATES = {"C01-D24": pred_d24, "C01-D28": pred_d28, "C01-D36": pred_d36}
+def _op_calls(fn: ast.FunctionDef):
+    for n in ast.walk(fn):
+        if isinstance(n, ast.Call) and isinstance(n.func, ast.Attribute) and isinstance(n.func.value, ast.Name):
+            yield n
+
+
+def pred_d43(fn: ast.FunctionDef) -> bool:
+    """an operator input given by keyword after an omitted optional input (`op.Clip(x, max=hi)`)"""
+    for c in _op_calls(fn):
+        names = op_input_names(c.func.attr, OPSET_VERSION_OF.get(c.func.value.id, 18))
+        have = set(range(len(c.args))) | {names.index(k.arg) for k in c.keywords if k.arg in names}
+        if any(k.arg in names and any(j not in have for j in range(names.index(k.arg))) for k in c.keywords):
+            return True
+    return False
+
+
+def pred_d44(fn: ast.FunctionDef) -> bool:
+    """a loop body ending in `if b: break` with an else branch"""
+    return any(isinstance(n, (ast.For, ast.While)) and n.body and _is_break_if(n.body[-1]) and n.body[-1].orelse
+               for n in ast.walk(fn))
+
+
+def pred_d45(fn: ast.FunctionDef, outer_names=()) -> bool:
+    """`if p:` on a parameter whose name is also bound in the enclosing scopes"""
+    params = {a.arg for a in fn.args.args}
+    return any(isinstance(n, ast.If) and isinstance(n.test, ast.Name) and n.test.id in params
+               and n.test.id in outer_names for n in ast.walk(fn))
+
+
+MULTI_OUTPUT_OPS = {"Dropout", "MaxPool", "BatchNormalization", "LayerNormalization", "TopK", "Split", "Unique"}
+
+
+def pred_d46(fn: ast.FunctionDef) -> bool:
+    """a single target assigned from an operator with several outputs (`y = op.Dropout(x)`)"""
+    return any(isinstance(n, ast.Assign) and isinstance(n.targets[0], ast.Name) and isinstance(n.value, ast.Call)
+               and isinstance(n.value.func, ast.Attribute) and n.value.func.attr in MULTI_OUTPUT_OPS
+               for n in ast.walk(fn))
+
+
+def pred_d47(fn: ast.FunctionDef) -> bool:
+    """a Python literal beside a tensor operand of an operator taken from an opset older than 15 (no CastLike)"""
+    old = {a for a, v in OPSET_VERSION_OF.items() if v < 15}
+    for c in _op_calls(fn):
+        if c.func.value.id in old and any(isinstance(a, ast.Constant) or
+                                          (isinstance(a, ast.UnaryOp) and isinstance(a.operand, ast.Constant))
+                                          for a in c.args):
+            return True
+    return False
+
+
+PREDICATES = {"C01-D24": pred_d24, "C01-D28": pred_d28, "C01-D36": pred_d36, "C01-D46": pred_d46, "C01-D47": pred_d47}
 # a predicate that only explains failures of a particular kind (substring of the failure text)
 FAILURE_FILTER: dict = {}
 FIXED_PREDICATES = {"C01-D23": pred_d23, "C01-D25": pred_d25, "C01-D26": pred_d26, "C01-D30": pred_d30,
                     "C01-D27": pred_d27, "C01-D29": pred_d29, "C01-D37": pred_d37, "C01-D39": pred_d39,
-                    "C01-D41": pred_d41}
+                    "C01-D41": pred_d41, "C01-D43": pred_d43}
 # regions the converter REFUSES since 9b326d7 / 9f69276 / fc696f7 (formerly findings C01-D31 / C01-D33 / C01-D38): the
 # generator of accepted programs stays out of them; they are exercised as near-miss kinds (`loop-var-read-after-loop`,
 # `return-not-last`, `loop-without-state`) and by the corpus witnesses w_d31 / w_d33 / w_d38
-REFUSED_REGIONS = {"C01-D31": pred_d31, "C01-D33": pred_d33, "C01-D38": pred_d38}
+REFUSED_REGIONS = {"C01-D31": pred_d31, "C01-D33": pred_d33, "C01-D38": pred_d38, "C01-D44": pred_d44}
 
 
 def classify_known(src: str) -> list[str]:
@@ -1232,6 +1309,22 @@ def gen_inputs(rng, p_params, p_attrs, shape, k: int):
 
 OPSET_VERSION_OF = {"op": 18, "opset11": 11, "opset12": 12, "opset13": 13, "opset17": 17, "opset18": 18,
                     "opset19": 19, "opset20": 20, "opset21": 21}
+
+
+_OP_INPUTS: dict = {}
+
+
+def op_input_names(opname: str, ver: int = 18) -> list[str]:
+    """Names of the formal inputs of an ONNX operator (installed onnx schemas)."""
+    key = (opname, ver)
+    if key not in _OP_INPUTS:
+        try:
+            import onnx
+
+            _OP_INPUTS[key] = [i.name for i in onnx.defs.get_schema(opname, ver, "").inputs]
+        except Exception:
+            _OP_INPUTS[key] = []
+    return _OP_INPUTS[key]
 
 
 class Interp:
@@ -1420,7 +1513,19 @@ class Interp:
             f = e.func
             if isinstance(f, ast.Attribute):
                 alias = f.value.id if isinstance(f.value, ast.Name) else "op"
-                return self.op(f.attr, args, kw, OPSET_VERSION_OF.get(alias, 18))
+                ver = OPSET_VERSION_OF.get(alias, 18)
+                # an operator INPUT may be given by keyword (`op.Clip(x, max=hi)`): it goes to the position of the
+                # formal of that name, omitted optional inputs before it staying absent
+                names = op_input_names(f.attr, ver)
+                given = [k for k in kw if k in names]
+                if given:
+                    full = list(args) + [None] * (len(names) - len(args))
+                    for k in given:
+                        full[names.index(k)] = kw.pop(k)
+                    while full and full[-1] is None:
+                        full.pop()
+                    args = full
+                return self.op(f.attr, args, kw, ver)
             if isinstance(f, ast.Name) and f.id in self.helpers:
                 r = self.call(self.helpers[f.id], [self.default_tensor(a) for a in args], kw)
                 return r[0] if len(r) == 1 else tuple(r)
@@ -1443,11 +1548,15 @@ class Interp:
                 for x, v in zip(t.elts, vals):
                     env[x.id] = v
             else:
-                env[t.id] = self.ev(s.value, env)
+                v = self.ev(s.value, env)
+                if isinstance(v, tuple) and isinstance(s.value, ast.Call) and isinstance(s.value.func, ast.Attribute):
+                    v = v[0]   # `y = op.Dropout(x)`: a single target names the operator's first output
+                env[t.id] = v
         elif isinstance(s, ast.If):
             if len(s.body) == 1 and isinstance(s.body[0], ast.Break):
                 if self.truth(self.ev(s.test, env)):
                     raise Interp._Break()
+                self.run_block(s.orelse, env)   # `if b: break` / `else: …` is ordinary Python
             elif self.truth(self.ev(s.test, env)):
                 self.run_block(s.body, env)
             else:
@@ -1673,6 +1782,63 @@ def mixed_opset_program(rng, name: str) -> dict:
     feats = ["softmax", "mixed-opset-" + ("old" if alias != "op" else "same")]
     return {"name": name, "shape": [2, 3, 4], "params": [["A", "T"]], "attrs": [], "rets": [["z", "T"]], "src": src,
             "features": feats}
+
+
+# =========================================================================== round-3 classes
+#
+# Keyword INPUTS of operators (`op.Clip(x, min=lo, max=hi)`), `if NAME:` on a name of the surroundings (a static
+# condition: only one branch is translated), `if b: break` with an else branch, a single target assigned from an
+# operator with several outputs.  The variants that hit an open finding carry its id (`finding_ids`).
+
+
+def keyword_input_program(rng, name: str) -> dict:
+    lo, hi = rng.choice([("0.5", "2.0"), ("-1.0", "1.5"), ("s", "2.5"), ("0.0", "s")])
+    form = rng.choice(["both-kw", "second-kw", "min-kw", "max-only", "max-only"])
+    call = {"both-kw": f"op.Clip(A, min={lo}, max={hi})", "second-kw": f"op.Clip(A, {lo}, max={hi})",
+            "min-kw": f"op.Clip(A, min={lo})", "max-only": f"op.Clip(A, max={hi})"}[form]
+    body = [f"x = {call}", rng.choice(["return x", "return op.Add(x, A)", "return (x * 2.0)"])]
+    src = "@script(default_opset=op)\n" + f"def {name}(A: FLOAT[3], s: FLOAT):\n" + "".join(f"    {ln}\n" for ln in body)
+    m = {"name": name, "shape": [3], "params": [["A", "T"], ["s", "S"]], "attrs": [], "rets": [["x", "T"]], "src": src,
+         "features": ["keyword-input", "keyword-input-" + form]}
+    return m   # `max-only` was C01-D43 (keyword input shifted into the omitted slot), fixed by b7afd5e
+
+
+def const_if_program(rng, name: str) -> dict:
+    g = f"flag_{name}"
+    val = rng.choice([0, 1])
+    kind = rng.choice(["plain", "plain", "param", "in-loop"])
+    then_, else_ = rng.choice([("op.Neg(A)", "op.Abs(A)"), ("(A * 2.0)", "op.Add(A, 1.0)"), ("op.Relu(A)", "A")])
+    if kind == "in-loop":
+        body = ["y = op.Identity(A)", "for i in range(2):", f"    if {g}:", f"        y = op.Add(y, {then_})", "    else:",
+                f"        y = op.Add(y, {else_})", "return y"]
+        sig = f"def {name}(A: FLOAT[3]):"
+        params = [["A", "T"]]
+    else:
+        body = [f"if {g}:", f"    y = {then_}", "else:", f"    y = {else_}", "return y"]
+        sig = f"def {name}(A: FLOAT[3], {g}: BOOL):" if kind == "param" else f"def {name}(A: FLOAT[3]):"
+        params = [["A", "T"], [g, "B"]] if kind == "param" else [["A", "T"]]
+    src = "@script(default_opset=op)\n" + sig + "\n" + "".join(f"    {ln}\n" for ln in body)
+    m = {"name": name, "shape": [3], "params": params, "attrs": [], "rets": [["y", "T"]], "src": src,
+         "features": ["static-if", "static-if-" + kind],
+         "wrap": {"levels": 1, "free": [{"name": g, "where": "global", "kind": "int", "value": val, "other": val}]}}
+    return m   # `param` was C01-D45 (a parameter taken for the outer name), fixed by 11e898c
+
+
+def break_else_program(rng, name: str) -> dict:
+    step = rng.choice(["op.Add(x, x)", "op.Add(x, A)", "(x * 1.5)"])
+    thr = rng.choice(["1000.0", "4.0", "0.0"])
+    body = ["x = op.Identity(A)", "for i in range(n):", f"    b = (op.ReduceSum(x, keepdims=0) > {thr})", "    if b:",
+            "        break", "    else:", f"        x = {step}", "return x"]
+    src = "@script(default_opset=op)\n" + f"def {name}(A: FLOAT[3], n: INT64):\n" + "".join(f"    {ln}\n" for ln in body)
+    return {"name": name, "shape": [3], "params": [["A", "T"], ["n", "I"]], "attrs": [], "rets": [["x", "T"]], "src": src,
+            "features": ["break-else"], "near_miss": "break-else", "expect": "TranslationError"}   # a0a3f70 (was C01-D44)
+
+
+def first_output_program(rng, name: str) -> dict:
+    body = [rng.choice(["y = op.Dropout(A)", "y = op.Dropout(op.Neg(A))"]), rng.choice(["return op.Add(y, A)", "return (y * 2.0)"])]
+    src = "@script(default_opset=op)\n" + f"def {name}(A: FLOAT[3]):\n" + "".join(f"    {ln}\n" for ln in body)
+    return {"name": name, "shape": [3], "params": [["A", "T"]], "attrs": [], "rets": [["r", "T"]], "src": src,
+            "features": ["single-target-multi-output"], "finding_ids": ["C01-D46"]}
 
 
 # =========================================================================== inner loops whose trip count shrinks
